@@ -292,6 +292,9 @@ pub fn stub_read_name_log<'buf>(_this: &mut ModuleReader<'buf>, strtab_offset: u
 where
     'buf: 'buf,
 {
+    // the real function starts with `assert!(name_offset < strtab_size)`: a caller that lets a larger
+    // offset through would panic there
+    assert!(name_offset < strtab_size, "read_name_from_strtab is only called with an offset inside the table");
     unsafe {
         STRTAB_LOG_N += 1;
         STRTAB_LOG = (strtab_offset, strtab_size, name_offset);
@@ -343,6 +346,40 @@ fn c14_soname_strtab_address_in_file() {
         assert_eq!(STRTAB_LOG.2, name);
     }
     kani::cover!(lo + d != lv + d, "file offset differs from the virtual address");
+    core::mem::forget(r);
+    core::mem::forget(rd);
+}
+
+/// C02: a DT_SONAME offset at or beyond DT_STRSZ (corrupt or hostile image) is an error, never a panic.
+#[kani::proof]
+#[kani::unwind(10)]
+#[kani::stub(crate::linux::module_reader::ModuleReader::read_program_headers, crate::verif::c14_module_reader::stub_read_program_headers)]
+#[kani::stub(crate::linux::module_reader::ModuleReader::read_name_from_strtab, crate::verif::c14_module_reader::stub_read_name_log)]
+#[kani::stub(std::fmt::format, crate::verif::env::stub_format)]
+fn c14_soname_offset_outside_table() {
+    let size: u64 = kani::any();
+    let name: u64 = kani::any();
+    kani::assume(name >= size);
+    let mut image = [0u8; 128];
+    put_dyn(&mut image, 16, elf::dynamic::DT_STRTAB, 0x1000);
+    put_dyn(&mut image, 32, elf::dynamic::DT_STRSZ, size);
+    put_dyn(&mut image, 48, elf::dynamic::DT_SONAME, name);
+    put_dyn(&mut image, 64, elf::dynamic::DT_NULL, 0);
+    unsafe {
+        PH_LOAD_OFF = 80;
+        PH_LOAD_VADDR = 0x1000;
+        PH_LOAD_SIZE = 32;
+        PH_DYN_OFF = 16;
+        PH_DYN_VADDR = 0x900;
+        STRTAB_LOG_N = 0;
+    }
+    let header: elf::Header = unsafe { core::mem::zeroed() };
+    let mut rd = ModuleReader::verif_from_parts(ProcessMemory::Slice(&image), header, Ctx::new(Container::Big, Endian::Little));
+    let r = rd.soname_from_program_headers();
+    assert!(r.is_err(), "no SONAME can be read from outside the string table");
+    assert_eq!(unsafe { STRTAB_LOG_N }, 0, "the table is not consulted");
+    kani::cover!(name == size, "offset == table size (boundary)");
+    kani::cover!(name > size, "offset beyond the table");
     core::mem::forget(r);
     core::mem::forget(rd);
 }
